@@ -66,14 +66,14 @@ def run_case(case):
     elif kind == 'union':
         weakly = rng.random() < 0.3
         sig, conds = corpus.union_base(rng, parts=rng.randint(3, 6), want='weak' if weakly else 'strong')
-        qs = corpus.derived_queries(rng, sig, conds, 5)
+        qs = corpus.derived_queries(rng, sig, conds, 5, layers=corpus.real_partition(impl.mk_bb(sig, conds)))
     else:
         files = corpus.random_large(20 if case.get('tier') == 'quick' else 40)
         a, c, i, path = files[rng.randrange(len(files))]
         src = path.split('/examples/')[-1]
         _, sig, conds = corpus.load(path)
         weakly = rng.random() < 0.25
-        qs = corpus.derived_queries(rng, sig, conds, 5)
+        qs = corpus.derived_queries(rng, sig, conds, 5, layers=corpus.real_partition(impl.mk_bb(sig, conds)))
     mode = 'extended' if weakly else 'strict'
     bdesc = {'source': src, 'atoms': len(sig), 'conditionals': len(conds)}
     if len(conds) <= 8:
